@@ -31,7 +31,7 @@ CONSTANTS
   MaxHeight, Range, Conc, TailH, FailBudget, CancelBudget, StopBudget, BgStore,
   FixSilentExit, FixResumeDone, FixRecentCp,
   \* LightAvail
-  Coords, K, NoCaller, NoHeight, EmptyHeights, OutsideHeights, CascadeModes, PersistOnEmpty,
+  Coords, K, Ks, NoCaller, NoHeight, EmptyHeights, OutsideHeights, CascadeModes, PersistOnEmpty,
   CrashForgiven, MaxCalls, MaxEnv,
   MaxJobs          \* bound on worker ids = callers
 
@@ -40,21 +40,21 @@ VARIABLES
   phase, cpc, next, head, failed, inRetry, jobs, nextId, done, persisted, snap, bgPrev, storeHead,
   tail, sampledOK, budget,
   \* LightAvail
-  disk, buf, session, pc, hgt, ctxDone, smp, woken, got, drawn, seen, okGiven, lost, calls, envs, hist,
+  disk, buf, session, pc, hgt, ctxDone, smp, woken, got, drawn, seen, okGiven, lost, calls, envs, k, hist,
   \* composition ghost: coordinates ever delivered with a non-empty (verified) sample, per height
   delivered
 
 dvars == <<phase, cpc, next, head, failed, inRetry, jobs, nextId, done, persisted, snap, bgPrev,
            storeHead, tail, sampledOK, budget>>
 lvars == <<disk, buf, session, pc, hgt, ctxDone, smp, woken, got, drawn, seen, okGiven, lost, calls,
-           envs, hist>>
+           envs, k, hist>>
 vars == <<dvars, lvars, delivered>>
 
 JobIds == 1..MaxJobs
 D == INSTANCE DAS
 L == INSTANCE LightAvail WITH Callers <- JobIds, Heights <- 1..MaxHeight, RecordHist <- FALSE
 
-Need == IF K < Cardinality(Coords) THEN K ELSE Cardinality(Coords)
+Need == IF k < Cardinality(Coords) THEN k ELSE Cardinality(Coords)   \* k = sample amount of the running instance
 
 Init == D!Init /\ L!Init /\ delivered = [h \in 1..MaxHeight |-> {}]
 
@@ -89,6 +89,7 @@ Returns(id) ==
   /\ \/ L!EmptyOrOutside(id) /\ D!WorkerStep(id, Outcome(L!EmptyOrOutsideVerdict(id)))
      \/ L!AllDone(id) /\ D!WorkerStep(id, "ok")
      \/ L!ReturnNothing(id) /\ D!WorkerStep(id, "fail")
+     \/ L!ReturnInvalid(id) /\ D!WorkerStep(id, "fail")     \* "invalid sampling result" is an error like any other
      \/ L!PersistAndReturn(id) /\ D!WorkerStep(id, Outcome(L!PersistVerdict(id)))
   /\ UNCHANGED delivered
 
